@@ -48,10 +48,10 @@ CHECKS = {
                 "generated tree and on everything glob returned, through root_dir/cwd/dir_fd; capture spans validated against re). "
                 "Proved for all trees/patterns/flag words: under REALPATH a non-existent path never matches, a path written without "
                 "trailing separator is matched as `path/` exactly when the tree says it is a directory, relative patterns carry the "
-                "_NO_ROOT guard. The main set equality is stated in full, is FALSE on this tree (witnesses D7, D8, G3, G2 are "
-                "decide+kernel theorems through the whole pipeline) and is searched directly: glob() vs globmatch(REALPATH) on the real code.",
+                "_NO_ROOT guard. The main set equality is stated in full, is FALSE on this tree (witnesses D8, G2 are "
+                "decide+kernel theorems through the whole pipeline; D7 and G3 are repaired: D7_fixed_witness, G3_fixed_witness) and is searched directly: glob() vs globmatch(REALPATH) on the real code.",
         'note': TB + "PARTIAL: the capture decomposition is executable and validated, not proved; the set equality is checked per tree/pattern, "
-                "not proved. Open known findings KF-D7, KF-D8, KF-G3, KF-G2, KF-G5, KF-G7, KF-G8 and those inherited from C05 (KF-G6 repaired).",
+                "not proved. Open known findings KF-D8, KF-G2, KF-G5, KF-G7, KF-G8 and those inherited from C05 (KF-G6, KF-D7, KF-G3 repaired).",
         'technique': 'Lean 4 side-clause theorems on a REALPATH matcher model + K5/K6 correspondence + direct two-API differential',
     },
     'C05': {
@@ -236,16 +236,26 @@ CHECKS = {
     },
     'C15': {
         'text': "Theorems for ALL trees/configurations/hook tables and ALL monotone poll oracles (kill from a hook, between two "
-                "values, from a thread, before the start): yielded values are a prefix of the uninterrupted results (under "
-                "DirSilent: nothing yielded from inside the folder loop - true for the base-class on_error), at most one more "
-                "file after the first observing poll (exact bound per poll site), sticky abort, reset + re-run = fresh run, "
-                "on_reset once, counter, routing/value pass-through for EVERY oracle. Kernel-evaluated witnesses for the two "
-                "open findings D19 (mid-iteration reset, reading-dependent) and D20 (folder-loop on_error values + kill: not a "
-                "prefix). Tied by K7: every abort point of every generated tree, a raise at every hook position, exhaustive op "
-                "interleavings on one object, kill() from a second thread.",
+                "values, from a thread, before the start): yielded values are a prefix of the uninterrupted results (C15_prefix: "
+                "the FULL statement, no hypothesis on the hook table - on_error may yield values from inside the folder loop), "
+                "after the first observing poll nothing happens but at most one more poll, which answers true and leaves the walk "
+                "(C15_overshoot, exact per poll site: no file is visited any more), between two consecutive polls all hook "
+                "invocations are about one path (C15_paced, every oracle: after kill() only the file being processed is "
+                "finished before a poll observes the flag), sticky abort, reset + re-run = fresh run, "
+                "on_reset once, counter, routing/value pass-through for EVERY oracle. Also for NON-monotone histories without a "
+                "second thread (kill()/reset() from hooks and between two next() of one generator - PollBlind oracles): values "
+                "(C15_prefix_single_thread) and every hook invocation (C15_trace_prefix) are an initial segment of the "
+                "uninterrupted run's. The two former findings D19 (mid-iteration reset entered never-validated directories) and "
+                "D20 (folder-loop on_error values + kill: not a prefix) are REPAIRED by one fix: commit (_walk polls once more "
+                "after the folder loop and leaves the walk; the model's fourth poll site Site.mid): kernel-evaluated "
+                "C15_D19_fixed_witness / C15_D20_fixed_witness, both old inputs replayed by the check (a reproduction is a "
+                "VIOLATION), kill/reset histories searched on generated trees. Tied by K7: every abort point of every generated "
+                "tree, a raise at every hook position, exhaustive op interleavings on one object, kill() from a second thread, "
+                "replay of the observed polls of every searched history.",
         'note': "Trusted: Lean kernel; axioms propext/Classical.choice/Quot.sound only; the harness; os.walk; the GIL (flag reads/"
                 "writes are atomic); hooks are functions of (base, name); exceptions from on_match/on_skip/on_error/on_reset "
-                "propagate and are checked on the real code only; one live generator per object in the op-interleaving stream.",
+                "propagate and are checked on the real code only; one live generator per object in the op-interleaving stream; "
+                "the non-monotone theorems exclude a second thread that clears the flag between two consecutive polls (Latched).",
         'technique': 'Lean 4 theorems (prefix/overshoot invariants over a poll-oracle model, op-sequence induction) + K7 correspondence + property search on the real code',
     },
 }
@@ -293,8 +303,8 @@ CHECKS['C03'].update({
 })
 CHECKS['C05'].update({
     'text': "Theorems (Lean): C05_partial_split — for EVERY pattern string and flag word, the parts `_GlobSplit` produces (model globSplit) satisfy "
-            "the shape facts the walker theorem needs (globSplit_WFParts / _drive / _litText; also: no '/' inside a literal part, adjacent globstars "
-            "only as the D6 base-part shape, non-empty parts; split_base_only — MATCHBASE / _EXTMATCHBASE change nothing in the split but the "
+            "the shape facts the walker theorem needs (globSplit_WFParts / _drive / _litText; also: no '/' inside a literal part, never two adjacent "
+            "globstars — the former base-part exception was the RGLOBSTAR defect, repaired —, non-empty parts; split_base_only — MATCHBASE / _EXTMATCHBASE change nothing in the split but the "
             "base part in front: same parts, same compiled regexes as under the flags with both bits cleared, the G6 repair), and for those parts the walker model returns exactly the paths the inductive "
             "specification Denotes — for every tree, under hypotheses that exclude exactly the recorded defects (a literal first name followed by further parts names a "
             "directory, D17; the SegAgree hypothesis — re.match vs full match, D14 — is a theorem since the D14 repair, segAgree_all, and the "
@@ -403,16 +413,16 @@ CHECKS['C04'].update({
             "a segment its group's body matches); matchReal_real_iff / matchReal_pure_iff (the model of _Match.match: REALPATH = lexists and the "
             "link rule on the captured spans and full match; without REALPATH = full match), globmatch_fullMatch (a path the regex does not fully "
             "match is never accepted), matchReal_real_nocap (no `**` capture or FOLLOW: REALPATH matching = exists and full match), "
-            "real_link_rule_first (no symlink inside the first `**` capture), REALPATH side clauses for all trees (non-existent false, directory "
-            "slash, relative vs absolute). Main equality glob = globmatch(REALPATH) is FALSE on this tree (witness theorems D7, D8, G2, G3) and "
+            "real_link_rule_all (no tested symlink inside ANY `**` capture, each under the path in front of it — since the G3 repair; real_link_rule_first is "
+            "its first-group case), REALPATH side clauses for all trees (non-existent false, directory "
+            "slash, relative vs absolute). Main equality glob = globmatch(REALPATH) is FALSE on this tree (witness theorems D8, G2; D7, G3 repaired) and "
             "is searched directly. Tie: K5 (walker events) + K6 (globmatch/globfilter REALPATH vs matchReal on every entry, also through links, "
             "root_dir / cwd / dir_fd). Search: strip(glob) vs {u in entries ∪ through-link paths ∪ results | globmatch(u, REALPATH)} with "
             "known findings attributed by call-site signature.",
     'note': TB + "PARTIAL: that runCap returns Python's FIRST match (priority order) is validated by K6, not proved — with several `**` groups the "
-            "split is assumed; later groups are tested under the base the first one left (defect G3). Open known findings KF-D7, D8, G2, G3, "
-            "G5, G7, G8, D17, D5, D6, D3 (D14, D16 repaired; G6 — MATCHBASE leaking into the walker's per-part regexes — repaired: "
-            "G6_fixed_witness, and for all strings C05.split_base_only; what is left under MATCHBASE is globmatch's own `**/` prefix, "
-            "KF-G5 / KF-D3: G5_D3_matchbase_witness).",
+            "split is assumed (KF-G8). Open known findings KF-D8, G2, G5, G7, G8, D17, D5, D6, D3 (D14, D16, D7, G3 repaired: real_link_rule_all holds for EVERY captured group; "
+            "G6 — MATCHBASE leaking into the walker's per-part regexes — repaired: G6_fixed_witness, and for all strings C05.split_base_only; what is left under MATCHBASE is "
+            "globmatch's own `**/` prefix, KF-G5 / KF-D3: G5_D3_matchbase_witness).",
     'technique': "Lean 4 soundness/completeness proof of the capture matcher w.r.t. the declarative regex semantics + characterisation of the "
                  "match model + side-clause theorems; exact-sequence correspondence and direct glob-vs-globmatch search",
 })
@@ -496,7 +506,7 @@ CHECKS['C16'].update({
             "(regex + capture span + link loop = DenotesTop); the hypotheses that remain are forced (newline_needed: KF-NEWLINE's open half; dotseg_needed: KF-DOTSEG). " + _c16,
     'note': CHECKS['C16']['note'].replace("so\n", "so ").replace("`q.match(p, REALPATH) <-> q in Path('.').rglob(p)` is stated and compared on every entry of every tree, not "
             "proved;", "`q.match(p, REALPATH) <-> q in Path('.').rglob(p)` is proved for literal patterns only (C16_match_rglob_literal); for magic patterns it is false as "
-            "stated (KF-D6/D7/D8/G3/G8/RGLOBSTAR/PARTPREFIX) and is compared on every entry of every tree;"),
+            "stated (KF-D6/D8/G8/PARTPREFIX; D7, G3, RGLOBSTAR repaired: RGLOBSTAR_D7_G3_fixed_witness) and is compared on every entry of every tree;"),
 })
 _c02c = CHECKS['C02']['text']
 CHECKS['C02'].update({
